@@ -398,3 +398,59 @@ func thmRecordCRLF(x string) {
 	//@ assert e1 == nil ==> g1.Rnext == g2.Rnext && g1.Pnext == g2.Pnext && g1.Tlen == g2.Tlen && g1.Seq == g2.Seq && g1.Qual == g2.Qual
 	_, _, _, _, _, _ = g1, g2, h1, h2, e1, e2
 }
+
+//@ theorem C11.acceptedInDomain
+//@   props C11 C03
+//@   requires len(x) > 0 && x[0] != '@'
+//@   requires forall j int :: 0 <= j && j < len(x) ==> x[j] != 10 && x[j] != 13
+//@   loop 1
+//@     invariant n == K && (n > 0 ==> e == Z1[0].1 && same(g, Z1[0].0.S) && h == Z1[0].0.H)
+// Every record the reader accepts lies in the domain of the round-trip theorem
+// C03.readerRoundtrip: its text fields are free of TAB/CR/LF, its name does not
+// start with '@', and each optional field (key: an arbitrary name) has a
+// TAB/CR/LF-free, colon-free name and a value of a supported type within that
+// type's domain. With C03.readerRoundtrip (for every record of that domain,
+// Write followed by ReaderHeader reproduces the record) this is the fixed-point
+// statement of C11 for SAM.
+func thmAcceptedInDomain(x string, key string) {
+	b := &bytes.Buffer{}
+	fmt.Fprintf(b, "%s\n", x)
+	//@ assert len(b.out) == len(x) + 1 && b.out[len(x)] == 10
+	//@ assert lnN(arr(b.out), len(b.out)) >= 1
+	//@ assert lnT(arr(b.out), len(b.out), 0) == len(x)
+	//@ assert lnN(arr(b.out), len(b.out)) == 1
+	//@ assert lnE(arr(b.out), len(b.out), 0) == len(x)
+	//@ assert !lblank(arr(b.out), len(b.out), 0) && nbl(arr(b.out), len(b.out), 1) == 1
+	//@ assert splitN(x, 9) >= 1 && x == lnStr(arr(b.out), len(b.out), 0)
+	var g *SAM
+	var h *string
+	var e error
+	n := 0
+	for sh, err := range ReaderHeader(b) {
+		if n == 0 {
+			g, h, e = sh.S, sh.H, err
+		}
+		n++
+	}
+	//@ assert n == 1 && h == nil
+	if e == nil {
+		//@ assert g != nil && samOK(splitA(x, 9), splitN(x, 9))
+		//@ assert samParsed(g.Qname, g.Flag, g.Rname, g.Pos, g.Mapq, g.Cigar, g.Rnext, g.Pnext, g.Tlen, g.Seq, g.Qual, maphas(g.Tags), mapval(g.Tags), splitA(x, 9), splitN(x, 9))
+		// every field of the line is free of TAB (it is a field), CR and LF (the line is)
+		//@ assert forall j int, i int :: {splitF(x, 9, j)[i]} 0 <= j && j < splitN(x, 9) && 0 <= i && i < len(splitF(x, 9, j)) ==> splitF(x, 9, j)[i] == x[splitS(x, 9, j) + i] && splitS(x, 9, j) + i < splitE(x, 9, j)
+		//@ assert forall j int :: {splitF(x, 9, j)} 0 <= j && j < splitN(x, 9) ==> cleanStr(splitF(x, 9, j))
+		//@ assert cleanStr(g.Qname) && cleanStr(g.Rname) && cleanStr(g.Cigar) && cleanStr(g.Rnext) && cleanStr(g.Seq) && cleanStr(g.Qual)
+		//@ assert len(g.Qname) > 0 ==> g.Qname[0] != '@'
+		if _, ok := g.Tags[key]; ok {
+			//@ assert exists j int :: 11 <= j && j < splitN(x, 9) && tname(splitF(x, 9, j)) == key && g.Tags[key] == tval(splitF(x, 9, j)) && tagOK(splitF(x, 9, j)) && cleanStr(splitF(x, 9, j))
+			//@ assert cleanStr(key) && forall j int :: 0 <= j && j < len(key) ==> key[j] != ':'
+			//@ assert dynbyte(g.Tags[key]) || dynint(g.Tags[key]) || dynfloat(g.Tags[key]) || dynstr(g.Tags[key]) || dynbytes(g.Tags[key])
+			//@ assert dynbyte(g.Tags[key]) ==> 0 <= asint(g.Tags[key]) && asint(g.Tags[key]) <= 255 && asint(g.Tags[key]) != 9 && asint(g.Tags[key]) != 10 && asint(g.Tags[key]) != 13
+			//@ assert dynstr(g.Tags[key]) ==> cleanStr(asstr(g.Tags[key]))
+			//@ assert dynbytes(g.Tags[key]) ==> forall j int :: {asbytes(g.Tags[key])[j]} 0 <= j && j < len(asbytes(g.Tags[key])) ==> 0 <= asbytes(g.Tags[key])[j] && asbytes(g.Tags[key])[j] <= 255
+			//@ assert tagDomain(key, g.Tags[key])
+			_ = ok
+		}
+	}
+	_, _, _ = g, h, e
+}
